@@ -8,7 +8,7 @@ open Abra.Sem Abra.VM
 def SimE (W : World) (Pg : Prog) (n : Nat) : Prop :=
   ∀ (e : Expr) (st : St) (Γ : TEnv) (next : Nat) (code : Code) (τ : Ty) (n' : Nat) (lc : Nat × Nat) (d pos : Nat)
     (L T : List VM.Val),
-    compE Γ next e = some (code, τ, n') → depthSafeE d e = true →
+    compE Γ next d e = some (code, τ, n') → d ≤ T.length →
     codeAt W.P pos (resolveAt pos lc code) → EnvRel L Γ st.env → WfΓ Γ next → n' ≤ L.length →
     Out W lc d pos (pos + code.length) L T st.out (fun v => pushed v τ)
       (fun L' ρ => EnvRel L' Γ ρ) (fun L' ρ => EnvRel L' Γ ρ) (fun v => HasTy v τ) (evalE n Pg st e)
@@ -16,7 +16,7 @@ def SimE (W : World) (Pg : Prog) (n : Nat) : Prop :=
 def SimS (W : World) (Pg : Prog) (n : Nat) : Prop :=
   ∀ (s : Stmt) (st : St) (Γ : TEnv) (next : Nat) (il : Bool) (code : Code) (τ : Ty) (Γ' : TEnv) (n' : Nat)
     (lc : Nat × Nat) (d pos : Nat) (L T : List VM.Val),
-    compS Γ next il s = some (code, τ, Γ', n') → depthSafeS d s = true →
+    compS Γ next d il s = some (code, τ, Γ', n') → d ≤ T.length →
     codeAt W.P pos (resolveAt pos lc code) → EnvRel L Γ st.env → WfΓ Γ next → n' ≤ L.length →
     Out W lc d pos (pos + code.length) L T st.out (fun v => if il then pushed v τ else [])
       (fun L' ρ => EnvRel L' Γ' ρ) (fun L' ρ => EnvRel L' Γ ρ) (fun v => il = true → HasTy v τ) (evalS n Pg st s)
@@ -24,7 +24,7 @@ def SimS (W : World) (Pg : Prog) (n : Nat) : Prop :=
 def SimSs (W : World) (Pg : Prog) (n : Nat) : Prop :=
   ∀ (ss : Stmts) (st : St) (Γ : TEnv) (next : Nat) (blk : Bool) (code : Code) (τ : Ty) (n' : Nat)
     (lc : Nat × Nat) (d pos : Nat) (L T : List VM.Val),
-    compSs Γ next blk ss = some (code, τ, n') → depthSafeSs d ss = true →
+    compSs Γ next d blk ss = some (code, τ, n') → d ≤ T.length →
     codeAt W.P pos (resolveAt pos lc code) → EnvRel L Γ st.env → WfΓ Γ next → n' ≤ L.length →
     Out W lc d pos (pos + code.length) L T st.out (fun v => if blk then pushed v τ else [])
       (fun L' ρ => EnvRel L' Γ (popEnv ρ st.env.length) ∧ st.env.length ≤ ρ.length)
@@ -39,32 +39,32 @@ theorem Out.sig_mono {W : World} {lc : Nat × Nat} {d pos e1 e2 : Nat} {L T : Li
     Out W lc d pos e2 L T out0 r2 ok2 sg2 v2 (.sig g s') := by
   cases g with
   | err k => exact h
-  | brk => obtain ⟨hd, L', hst, he, hl⟩ := h; exact ⟨hd, L', hst, hs _ _ he, hl⟩
-  | cont => obtain ⟨hd, L', hst, he, hl⟩ := h; exact ⟨hd, L', hst, hs _ _ he, hl⟩
+  | brk => obtain ⟨L', hst, he, hl⟩ := h; exact ⟨L', hst, hs _ _ he, hl⟩
+  | cont => obtain ⟨L', hst, he, hl⟩ := h; exact ⟨L', hst, hs _ _ he, hl⟩
   | ret v => exact h
 
-/-- a signal raised by a later stage, after `hst`; `hT`: a `break`/`continue` there is only possible when
-    no operand of this fragment is pending -/
+/-- a signal raised by a later stage, after `hst`; `hT`: what a `break`/`continue` of that stage leaves on the
+    stack is what one of the whole fragment leaves (the operands this fragment pushed in between are counted in `d'`) -/
 theorem Out.sig_after {W : World} {lc : Nat × Nat} {d d' pos0 pos e1 e2 : Nat} {L0 L T0 T : List VM.Val}
     {out0 out : List String}
     {r1 r2 : Sem.Val → List VM.Val} {ok1 ok2 sg1 sg2 : List VM.Val → Env → Prop} {v1 v2 : Sem.Val → Prop}
     {g : Sig} {s' : St}
     (hst : Steps W.P (W.cfg pos0 L0 T0 out0) (W.cfg pos L T out)) (hl0 : L.length = L0.length)
     (h : Out W lc d' pos e1 L T out r1 ok1 sg1 v1 (.sig g s')) (hs : ∀ L' ρ, sg1 L' ρ → sg2 L' ρ)
-    (hT : d' = 0 → T = T0 ∧ d = 0) :
+    (hT : dropPending T d' = dropPending T0 d) :
     Out W lc d pos0 e2 L0 T0 out0 r2 ok2 sg2 v2 (.sig g s') := by
   cases g with
   | err k =>
     obtain ⟨s1, s2, h1, h2, h3⟩ := h
     exact ⟨s1, s2, hst.trans h1, h2, h3⟩
   | brk =>
-    obtain ⟨hd, L', h1, he, hl⟩ := h
-    obtain ⟨rfl, hd0⟩ := hT hd
-    exact ⟨hd0, L', hst.trans h1, hs _ _ he, by omega⟩
+    obtain ⟨L', h1, he, hl⟩ := h
+    rw [hT] at h1
+    exact ⟨L', hst.trans h1, hs _ _ he, by omega⟩
   | cont =>
-    obtain ⟨hd, L', h1, he, hl⟩ := h
-    obtain ⟨rfl, hd0⟩ := hT hd
-    exact ⟨hd0, L', hst.trans h1, hs _ _ he, by omega⟩
+    obtain ⟨L', h1, he, hl⟩ := h
+    rw [hT] at h1
+    exact ⟨L', hst.trans h1, hs _ _ he, by omega⟩
   | ret v => exact h
 
 theorem pushed_unit (v : Sem.Val) : pushed v .unit = [] := rfl
@@ -92,9 +92,13 @@ theorem resolveT_rel (pos : Nat) (lc : Nat × Nat) (k : Nat) : resolveT pos lc (
 
 
 
-theorem compE_bin_strict (op : BinOp) (h1 : op ≠ .and) (h2 : op ≠ .or) (a b : Expr) (Γ : TEnv) (next : Nat)
-    (code : Code) (τ : Ty) (n' : Nat) (h : compE Γ next (.bin op a b) = some (code, τ, n')) :
-    ∃ ca ta n1 cb tb is, compE Γ next a = some (ca, ta, n1) ∧ compE Γ n1 b = some (cb, tb, n') ∧
+theorem strictOp_ne_unit {op : BinOp} {ta tb : Ty} {r : Code × Ty} (h : strictOp op ta tb = some r) :
+    ta ≠ .unit ∧ tb ≠ .unit := by
+  cases ta <;> cases tb <;> cases op <;> simp [strictOp] at h <;> exact ⟨by decide, by decide⟩
+
+theorem compE_bin_strict (op : BinOp) (h1 : op ≠ .and) (h2 : op ≠ .or) (a b : Expr) (Γ : TEnv) (next d : Nat)
+    (code : Code) (τ : Ty) (n' : Nat) (h : compE Γ next d (.bin op a b) = some (code, τ, n')) :
+    ∃ ca ta n1 cb tb is, compE Γ next d a = some (ca, ta, n1) ∧ compE Γ n1 (d + 1) b = some (cb, tb, n') ∧
       strictOp op ta tb = some (is, τ) ∧ code = ca ++ cb ++ is := by
   cases op <;> first
     | exact absurd rfl h1
@@ -118,41 +122,40 @@ theorem evalE_bin_strict (Pg : Prog) (n : Nat) (op : BinOp) (h1 : op ≠ .and) (
       (evalE n Pg st a).bind fun va s1 => (evalE n Pg s1 b).bind fun vb s2 => binop n op va vb s2 := by
   cases op <;> first | exact absurd rfl h1 | exact absurd rfl h2 | (simp only [evalE])
 
-theorem depthSafeE_bin_strict (op : BinOp) (h1 : op ≠ .and) (h2 : op ≠ .or) (a b : Expr) (d : Nat) :
-    depthSafeE d (.bin op a b) = (depthSafeE d a && depthSafeE (d + 1) b) := by
-  cases op <;> first | exact absurd rfl h1 | exact absurd rfl h2 | (simp only [depthSafeE])
-
 theorem simE_bin_strict {W : World} {Pg : Prog} {n : Nat} (hE : SimE W Pg n) (op : BinOp) (a b : Expr)
     (h1 : op ≠ .and) (h2 : op ≠ .or)
     (st : St) (Γ : TEnv) (next : Nat) (code : Code) (t : Ty) (n2 : Nat) (lc : Nat × Nat) (d pos : Nat)
     (L T : List VM.Val)
-    (hc : compE Γ next (.bin op a b) = some (code, t, n2)) (hd : depthSafeE d (.bin op a b) = true)
+    (hc : compE Γ next d (.bin op a b) = some (code, t, n2)) (hd : d ≤ T.length)
     (hcode : codeAt W.P pos (resolveAt pos lc code)) (henv : EnvRel L Γ st.env) (hwf : WfΓ Γ next)
     (hlen : n2 ≤ L.length) :
     Out W lc d pos (pos + code.length) L T st.out (fun v => pushed v t)
       (fun L' ρ => EnvRel L' Γ ρ) (fun L' ρ => EnvRel L' Γ ρ) (fun v => HasTy v t)
       (evalE (n + 1) Pg st (.bin op a b)) := by
-  obtain ⟨ca, ta, n1, cb, tb, is, heq1, heq2, heq3, rfl⟩ := compE_bin_strict op h1 h2 a b Γ next code t n2 hc
-  rw [depthSafeE_bin_strict op h1 h2, Bool.and_eq_true] at hd
+  obtain ⟨ca, ta, n1, cb, tb, is, heq1, heq2, heq3, rfl⟩ := compE_bin_strict op h1 h2 a b Γ next d code t n2 hc
+  obtain ⟨hne1, _⟩ := strictOp_ne_unit heq3
   have heval := evalE_bin_strict Pg n op h1 h2 a b
   have goal : Out W lc d pos (pos + (ca ++ cb ++ is).length) L T st.out (fun v => pushed v t)
       (fun L' ρ => EnvRel L' Γ ρ) (fun L' ρ => EnvRel L' Γ ρ) (fun v => HasTy v t)
       (evalE (n + 1) Pg st (.bin op a b)) := by
-    have hm1 := compE_mono a _ _ _ _ _ heq1
-    have hm2 := compE_mono b _ _ _ _ _ heq2
+    have hm1 := compE_mono a _ _ _ _ _ _ heq1
+    have hm2 := compE_mono b _ _ _ _ _ _ heq2
     simp only [resolveAt_append] at hcode
     have hca := codeAt_append_left (codeAt_append_left hcode)
     have hcb := codeAt_append_right (codeAt_append_left hcode)
     have his := codeAt_append_right hcode
     simp only [resolveAt_length, List.length_append] at hcb his
-    have iha := hE a st Γ next ca ta n1 lc d pos L T heq1 hd.1 hca henv hwf (by omega)
+    have iha := hE a st Γ next ca ta n1 lc d pos L T heq1 hd hca henv hwf (by omega)
     rw [heval]
     cases hra : evalE n Pg st a with
     | ok va s1 =>
       rw [hra] at iha
       obtain ⟨L1, hst1, henv1, hl1, hty1⟩ := iha
       simp only [Res.bind]
-      have ihb := hE b s1 Γ n1 cb tb n2 lc (d + 1) (pos + ca.length) L1 (T ++ pushed va ta) heq2 hd.2 hcb henv1
+      dsimp only at hst1
+      rw [pushed_of_hasTy hty1 hne1] at hst1
+      have ihb := hE b s1 Γ n1 cb tb n2 lc (d + 1) (pos + ca.length) L1 (T ++ [encV va]) heq2
+        (by simp only [List.length_append, List.length_cons, List.length_nil]; omega) hcb henv1
         (hwf.mono hm1) (by omega)
       cases hrb : evalE n Pg s1 b with
       | ok vb s2 =>
@@ -162,8 +165,7 @@ theorem simE_bin_strict {W : World} {Pg : Prog} {n : Nat} (hE : SimE W Pg n) (op
         simp only [Res.bind]
         obtain ⟨hpa, hpb, hres⟩ :=
           strictOp_sound W heq3 hty1 hty2 m s2 lc (pos + (ca.length + cb.length)) his L2 T
-        dsimp only at hst1 hst2
-        rw [hpa] at hst1 hst2
+        dsimp only at hst2
         rw [hpb] at hst2
         have e2 : (T ++ [encV va]) ++ [encV vb] = T ++ [encV va, encV vb] := by simp
         rw [e2] at hst2
@@ -194,7 +196,7 @@ theorem simE_bin_strict {W : World} {Pg : Prog} {n : Nat} (hE : SimE W Pg n) (op
       | sig g s' =>
         rw [hrb] at ihb
         simp only [Res.bind]
-        exact Out.sig_after hst1 hl1 ihb (fun _ _ h => h) (by intro h; omega)
+        exact Out.sig_after hst1 hl1 ihb (fun _ _ h => h) (dropPending_snoc T _ d)
       | timeout => trivial
       | stuck w => trivial
     | sig g s' =>
@@ -250,13 +252,13 @@ theorem simE_succ {W : World} {Pg : Prog} {n : Nat} (hE : SimE W Pg n) (hSs : Si
       · rename_i ca n1 heq
         simp only [Option.some.injEq, Prod.mk.injEq] at hc
         obtain ⟨rfl, rfl, rfl⟩ := hc
-        simp only [depthSafeE] at hd
         simp only [resolveAt_append, List.cons_append, List.nil_append, resolveAt] at hcode
         have h0 : W.P[pos]? = some (.pushInt 0) := codeAt_head hcode
         have hca := codeAt_append_left (codeAt_tail hcode)
         have hop := codeAt_append_right (codeAt_tail hcode)
         simp only [resolveAt_length] at hop
-        have ih := hE a st Γ next ca .int _ lc (d + 1) (pos + 1) L (T ++ [.int 0]) heq hd hca henv hwf hlen
+        have ih := hE a st Γ next ca .int _ lc (d + 1) (pos + 1) L (T ++ [.int 0]) heq
+          (by simp only [List.length_append, List.length_cons, List.length_nil]; omega) hca henv hwf hlen
         have st0 : Steps W.P (W.cfg pos L T st.out) (W.cfg (pos + 1) L (T ++ [.int 0]) st.out) :=
           .single (step_pushInt W h0 L T st.out)
         simp only [evalE]
@@ -295,7 +297,7 @@ theorem simE_succ {W : World} {Pg : Prog} {n : Nat} (hE : SimE W Pg n) (hSs : Si
         | sig g s' =>
           rw [hra] at ih
           simp only [Res.bind]
-          exact Out.sig_after st0 rfl ih (fun _ _ h => h) (by intro h; omega)
+          exact Out.sig_after st0 rfl ih (fun _ _ h => h) (dropPending_snoc T _ d)
         | timeout => trivial
         | stuck w => trivial
       · simp at hc
@@ -305,7 +307,6 @@ theorem simE_succ {W : World} {Pg : Prog} {n : Nat} (hE : SimE W Pg n) (hSs : Si
       · rename_i ca n1 heq
         simp only [Option.some.injEq, Prod.mk.injEq] at hc
         obtain ⟨rfl, rfl, rfl⟩ := hc
-        simp only [depthSafeE] at hd
         simp only [resolveAt_append, resolveAt] at hcode
         have hca := codeAt_append_left hcode
         have hop := codeAt_append_right hcode
@@ -332,7 +333,6 @@ theorem simE_succ {W : World} {Pg : Prog} {n : Nat} (hE : SimE W Pg n) (hSs : Si
       · simp at hc
   | block ss =>
     simp only [compE] at hc
-    simp only [depthSafeE] at hd
     have ih := hSs ss st Γ next true code τ n' lc d pos L T hc hd hcode henv hwf hlen
     simp only [evalE]
     apply Out.popTo
@@ -347,8 +347,7 @@ theorem simE_succ {W : World} {Pg : Prog} {n : Nat} (hE : SimE W Pg n) (hSs : Si
     | timeout => trivial
     | stuck w => trivial
   | print a =>
-    simp only [depthSafeE] at hd
-    have key : ∀ (ca : Code) (pt : PTy) (ta : Ty), compE Γ next a = some (ca, ta, n') → ta ≠ .unit →
+    have key : ∀ (ca : Code) (pt : PTy) (ta : Ty), compE Γ next d a = some (ca, ta, n') → ta ≠ .unit →
         (∀ v, HasTy v ta → ∃ txt, (∀ m h, render (m + 1) h v = some txt) ∧ renderVal pt (encV v) = .ok txt) →
         codeAt W.P pos (resolveAt pos lc (ca ++ [.print pt])) →
         Out W lc d pos (pos + (ca ++ [Instr.print pt]).length) L T st.out (fun v => pushed v .unit)
@@ -408,9 +407,8 @@ theorem simE_succ {W : World} {Pg : Prog} {n : Nat} (hE : SimE W Pg n) (hSs : Si
         · rename_i cb n2 heq2
           simp only [Option.some.injEq, Prod.mk.injEq] at hc
           obtain ⟨rfl, rfl, rfl⟩ := hc
-          simp only [depthSafeE, Bool.and_eq_true] at hd
-          have hm1 := compE_mono a _ _ _ _ _ heq1
-          have hm2 := compE_mono b _ _ _ _ _ heq2
+          have hm1 := compE_mono a _ _ _ _ _ _ heq1
+          have hm2 := compE_mono b _ _ _ _ _ _ heq2
           simp only [resolveAt_append, resolveAt, List.length_append, List.length_cons, List.length_nil,
             resolveAt_length] at hcode
           have hca := codeAt_append_left (codeAt_append_left (codeAt_append_left hcode))
@@ -431,7 +429,7 @@ theorem simE_succ {W : World} {Pg : Prog} {n : Nat} (hE : SimE W Pg n) (hSs : Si
               ++ [Instr.jump (Target.rel 1), Instr.pushBool false]).length = pos + ca.length + 1 + cb.length + 2 := by
             simp only [List.length_append, List.length_cons, List.length_nil]; omega
           rw [hend]
-          have iha := hE a st Γ next ca .bool n1 lc d pos L T heq1 hd.1 hca henv hwf (by omega)
+          have iha := hE a st Γ next ca .bool n1 lc d pos L T heq1 hd hca henv hwf (by omega)
           simp only [evalE]
           cases hra : evalE n Pg st a with
           | ok va s1 =>
@@ -456,7 +454,7 @@ theorem simE_succ {W : World} {Pg : Prog} {n : Nat} (hE : SimE W Pg n) (hSs : Si
                 have hcb' : codeAt W.P (pos + ca.length + 1) (resolveAt (pos + ca.length + 1) lc cb) := by
                   have : pos + (ca.length + (0 + 1)) = pos + ca.length + 1 := by omega
                   rw [← this]; exact hcb
-                have ihb := hE b s1 Γ n1 cb .bool n2 lc d (pos + ca.length + 1) L1 T heq2 hd.2 hcb' henv1
+                have ihb := hE b s1 Γ n1 cb .bool n2 lc d (pos + ca.length + 1) L1 T heq2 hd hcb' henv1
                   (hwf.mono hm1) (by omega)
                 cases hrb : evalE n Pg s1 b with
                 | ok vb s2 =>
@@ -469,7 +467,7 @@ theorem simE_succ {W : World} {Pg : Prog} {n : Nat} (hE : SimE W Pg n) (hSs : Si
                   exact ((hst1.snoc hstep).trans hst2).snoc (step_jump W hj2 L2 _ s2.out)
                 | sig g s' =>
                   rw [hrb] at ihb
-                  exact Out.sig_after (hst1.snoc hstep) hl1 ihb (fun _ _ h => h) (fun h => ⟨rfl, h⟩)
+                  exact Out.sig_after (hst1.snoc hstep) hl1 ihb (fun _ _ h => h) rfl
                 | timeout => trivial
                 | stuck w => trivial
           | sig g s' =>
@@ -489,9 +487,8 @@ theorem simE_succ {W : World} {Pg : Prog} {n : Nat} (hE : SimE W Pg n) (hSs : Si
           · rename_i cb n2 heq2
             simp only [Option.some.injEq, Prod.mk.injEq] at hc
             obtain ⟨rfl, rfl, rfl⟩ := hc
-            simp only [depthSafeE, Bool.and_eq_true] at hd
-            have hm1 := compE_mono a _ _ _ _ _ heq1
-            have hm2 := compE_mono b _ _ _ _ _ heq2
+            have hm1 := compE_mono a _ _ _ _ _ _ heq1
+            have hm2 := compE_mono b _ _ _ _ _ _ heq2
             simp only [resolveAt_append, resolveAt, List.length_append, List.length_cons, List.length_nil,
               resolveAt_length] at hcode
             have hca := codeAt_append_left (codeAt_append_left (codeAt_append_left hcode))
@@ -512,7 +509,7 @@ theorem simE_succ {W : World} {Pg : Prog} {n : Nat} (hE : SimE W Pg n) (hSs : Si
                 ++ [Instr.jump (Target.rel 1), Instr.pushBool true]).length = pos + ca.length + 1 + cb.length + 2 := by
               simp only [List.length_append, List.length_cons, List.length_nil]; omega
             rw [hend]
-            have iha := hE a st Γ next ca .bool n1 lc d pos L T heq1 hd.1 hca henv hwf (by omega)
+            have iha := hE a st Γ next ca .bool n1 lc d pos L T heq1 hd hca henv hwf (by omega)
             simp only [evalE]
             cases hra : evalE n Pg st a with
             | ok va s1 =>
@@ -537,7 +534,7 @@ theorem simE_succ {W : World} {Pg : Prog} {n : Nat} (hE : SimE W Pg n) (hSs : Si
                   have hcb' : codeAt W.P (pos + ca.length + 1) (resolveAt (pos + ca.length + 1) lc cb) := by
                     have : pos + (ca.length + (0 + 1)) = pos + ca.length + 1 := by omega
                     rw [← this]; exact hcb
-                  have ihb := hE b s1 Γ n1 cb .bool n2 lc d (pos + ca.length + 1) L1 T heq2 hd.2 hcb' henv1
+                  have ihb := hE b s1 Γ n1 cb .bool n2 lc d (pos + ca.length + 1) L1 T heq2 hd hcb' henv1
                     (hwf.mono hm1) (by omega)
                   cases hrb : evalE n Pg s1 b with
                   | ok vb s2 =>
@@ -550,7 +547,7 @@ theorem simE_succ {W : World} {Pg : Prog} {n : Nat} (hE : SimE W Pg n) (hSs : Si
                     exact ((hst1.snoc hstep).trans hst2).snoc (step_jump W hj2 L2 _ s2.out)
                   | sig g s' =>
                     rw [hrb] at ihb
-                    exact Out.sig_after (hst1.snoc hstep) hl1 ihb (fun _ _ h => h) (fun h => ⟨rfl, h⟩)
+                    exact Out.sig_after (hst1.snoc hstep) hl1 ihb (fun _ _ h => h) rfl
                   | timeout => trivial
                   | stuck w => trivial
             | sig g s' =>
@@ -577,10 +574,9 @@ theorem simE_succ {W : World} {Pg : Prog} {n : Nat} (hE : SimE W Pg n) (hSs : Si
             simp only [Option.some.injEq, Prod.mk.injEq] at hc
             obtain ⟨rfl, rfl, rfl⟩ := hc
             subst htt
-            simp only [depthSafeE, Bool.and_eq_true] at hd
-            have hm1 := compE_mono c _ _ _ _ _ heq1
-            have hm2 := compE_mono t _ _ _ _ _ heq2
-            have hm3 := compE_mono f _ _ _ _ _ heq3
+            have hm1 := compE_mono c _ _ _ _ _ _ heq1
+            have hm2 := compE_mono t _ _ _ _ _ _ heq2
+            have hm3 := compE_mono f _ _ _ _ _ _ heq3
             simp only [resolveAt_append, resolveAt, List.length_append, List.length_cons, List.length_nil] at hcode
             have hcc := codeAt_append_left (codeAt_append_left (codeAt_append_left (codeAt_append_left hcode)))
             have hjf := codeAt_head (codeAt_append_right (codeAt_append_left (codeAt_append_left (codeAt_append_left hcode))))
@@ -599,7 +595,7 @@ theorem simE_succ {W : World} {Pg : Prog} {n : Nat} (hE : SimE W Pg n) (hSs : Si
                 ++ [Instr.jump (Target.rel ↑cf.length)] ++ cf).length = pos + cc.length + 1 + ct.length + 1 + cf.length := by
               simp only [List.length_append, List.length_cons, List.length_nil]; omega
             rw [hend]
-            have ihc := hE c st Γ next cc .bool n1 lc d pos L T heq1 hd.1.1 hcc henv hwf (by omega)
+            have ihc := hE c st Γ next cc .bool n1 lc d pos L T heq1 hd hcc henv hwf (by omega)
             simp only [evalE]
             cases hrc : evalE n Pg st c with
             | ok vc s1 =>
@@ -616,7 +612,7 @@ theorem simE_succ {W : World} {Pg : Prog} {n : Nat} (hE : SimE W Pg n) (hSs : Si
                   have hct' : codeAt W.P (pos + cc.length + 1) (resolveAt (pos + cc.length + 1) lc ct) := by
                     have e : pos + (cc.length + (0 + 1)) = pos + cc.length + 1 := by omega
                     rw [e] at hct; exact hct
-                  have iht := hE t s1 Γ n1 ct tt n2 lc d (pos + cc.length + 1) L1 T heq2 hd.1.2 hct' henv1
+                  have iht := hE t s1 Γ n1 ct tt n2 lc d (pos + cc.length + 1) L1 T heq2 hd hct' henv1
                     (hwf.mono hm1) (by omega)
                   cases hrt : evalE n Pg s1 t with
                   | ok vt s2 =>
@@ -630,7 +626,7 @@ theorem simE_succ {W : World} {Pg : Prog} {n : Nat} (hE : SimE W Pg n) (hSs : Si
                     exact ((hst1.snoc hstep).trans hst2).snoc (step_jump W hj2 L2 _ s2.out)
                   | sig g s' =>
                     rw [hrt] at iht
-                    exact Out.sig_after (hst1.snoc hstep) hl1 iht (fun _ _ h => h) (fun h => ⟨rfl, h⟩)
+                    exact Out.sig_after (hst1.snoc hstep) hl1 iht (fun _ _ h => h) rfl
                   | timeout => trivial
                   | stuck w => trivial
                 | false =>
@@ -639,7 +635,7 @@ theorem simE_succ {W : World} {Pg : Prog} {n : Nat} (hE : SimE W Pg n) (hSs : Si
                       (resolveAt (pos + cc.length + 1 + ct.length + 1) lc cf) := by
                     have e : pos + (cc.length + (0 + 1) + ct.length + (0 + 1)) = pos + cc.length + 1 + ct.length + 1 := by omega
                     rw [e] at hcf; exact hcf
-                  have ihf := hE f s1 Γ n2 cf tt n3 lc d (pos + cc.length + 1 + ct.length + 1) L1 T heq3 hd.2 hcf' henv1
+                  have ihf := hE f s1 Γ n2 cf tt n3 lc d (pos + cc.length + 1 + ct.length + 1) L1 T heq3 hd hcf' henv1
                     (hwf.mono (by omega)) (by omega)
                   cases hrf : evalE n Pg s1 f with
                   | ok vf s2 =>
@@ -648,7 +644,7 @@ theorem simE_succ {W : World} {Pg : Prog} {n : Nat} (hE : SimE W Pg n) (hSs : Si
                     exact ⟨L2, (hst1.snoc hstep).trans hst2, henv2, by omega, hty2⟩
                   | sig g s' =>
                     rw [hrf] at ihf
-                    exact Out.sig_after (hst1.snoc hstep) hl1 ihf (fun _ _ h => h) (fun h => ⟨rfl, h⟩)
+                    exact Out.sig_after (hst1.snoc hstep) hl1 ihf (fun _ _ h => h) rfl
                   | timeout => trivial
                   | stuck w => trivial
             | sig g s' =>
